@@ -24,8 +24,9 @@ import GaeaVerif.Gen.Consts
   * read_only probes never: `read_only_probe_goes_to_master`;
   * only read/write-split (or read-only) users at all: `rw_split_decision`;
   * inside a transaction every statement runs on the master: `in_transaction_master`
-    (sessions without keep-session; the keep-session exception for read-only
-    users is the open finding `readonly_keepsession_tx_on_replica_witness`);
+    (every session, keep-session and read-only users included since fix cb8bfb6:
+    `keepsession_master`; the pinned decision is kept in
+    `readonly_keepsession_tx_on_replica_witness`);
   * the oracle of the correspondence check accepts every decision of the model:
     `replicaVerdict_of_flag`, `replicaVerdict_of_route`.
 -/
@@ -612,19 +613,16 @@ theorem getNormalConnection_slave (sl : Slice) (f : Bool) (h : getNormalConnecti
 
 theorem getBackendConn_slave (c : RwSplit.Cfg) (s : Sess) (sl : Slice) (f f' : Bool)
     (h : getBackendConn c s sl f = (.slave, f')) :
-    (s.keepSession = true ∧ c.rwFlag = rwReadOnly) ∨
-    (s.keepSession = false ∧ s.isInTransaction = false ∧ f = true) := by
+    s.keepSession = false ∧ s.isInTransaction = false ∧ f = true := by
   unfold getBackendConn at h
   cases hk : s.keepSession with
   | true =>
-    left
     simp only [hk, if_true] at h
-    have h1 : getNormalConnection sl (c.rwFlag == rwReadOnly) = .slave := by
+    have h1 : getNormalConnection sl false = .slave := by
       injection h
     have := getNormalConnection_slave sl _ h1
-    exact ⟨rfl, by simpa using this⟩
+    cases this
   | false =>
-    right
     simp only [hk, Bool.false_eq_true, if_false] at h
     cases ht : s.isInTransaction with
     | true => simp [ht] at h
@@ -672,17 +670,38 @@ theorem doQuery_conn (c : RwSplit.Cfg) (s : Sess) (sl : Slice) (db : Str) (st : 
             injection h with h1 h2
             exact Prod.ext h1 h2
 
-/-- **C22, inside a transaction.**  In a session that is in a transaction (or
-    has autocommit off) and does not use keep-session, every statement that reaches
-    a backend takes its connection from the master, whatever the flag. -/
-theorem in_transaction_master (c : RwSplit.Cfg) (s : Sess) (sl : Slice) (db : Str) (st : Nat) (sql : Str)
-    (n : Node) (f' : Bool) (hks : s.keepSession = false) (htx : s.isInTransaction = true)
+/-- A keep-session session is always served by the master, whoever the user
+    (read-only users included since fix cb8bfb6) and whatever the flag. -/
+theorem keepsession_master (c : RwSplit.Cfg) (s : Sess) (sl : Slice) (db : Str) (st : Nat) (sql : Str)
+    (n : Node) (f' : Bool) (hks : s.keepSession = true)
     (h : doQuery c s sl db st sql = .ok (.conn n f')) : n = .master := by
   obtain ⟨tokens, _, hg⟩ := doQuery_conn c s sl db st sql n f' h
   unfold getBackendConn at hg
-  simp only [hks, Bool.false_eq_true, if_false, htx, Bool.not_true] at hg
+  simp only [hks, if_true] at hg
   injection hg with h1 _
-  exact h1.symm
+  rw [← h1]
+  rfl
+
+/-- **C22, inside a transaction.**  In a session that is in a transaction (or
+    has autocommit off) - with or without keep-session, for every user - every
+    statement that reaches a backend takes its connection from the master,
+    whatever the flag. -/
+theorem in_transaction_master (c : RwSplit.Cfg) (s : Sess) (sl : Slice) (db : Str) (st : Nat) (sql : Str)
+    (n : Node) (f' : Bool) (htx : s.isInTransaction = true)
+    (h : doQuery c s sl db st sql = .ok (.conn n f')) : n = .master := by
+  cases hks : s.keepSession with
+  | true => exact keepsession_master c s sl db st sql n f' hks h
+  | false =>
+    obtain ⟨tokens, _, hg⟩ := doQuery_conn c s sl db st sql n f' h
+    unfold getBackendConn at hg
+    simp only [hks, Bool.false_eq_true, if_false, htx, Bool.not_true] at hg
+    injection hg with h1 _
+    exact h1.symm
+
+/-- the former exception: a read-only user's keep-session transaction -/
+example : doQuery { rwFlag := 1, rwSplit := 1, checkSelectLock := true }
+    { keepSession := true, inTrans := true, autocommit := true } { slaveUp := true, fallback := true }
+    "db_a".toList stmtSelect "select * from t".toList = .ok (.conn .master false) := by decide
 
 example : doQuery { rwFlag := 2, rwSplit := 1, checkSelectLock := true }
     { keepSession := false, inTrans := true, autocommit := true } { slaveUp := true, fallback := true }
@@ -701,12 +720,11 @@ theorem replica_only_for_plain_reads (c : RwSplit.Cfg) (s : Sess) (sl : Slice) (
     isReadOnlyProbe st sql = false ∧
     ∃ tokens, tokenize sql = .ok tokens ∧ hasMasterHint tokens = false := by
   obtain ⟨tokens, htok, hg⟩ := doQuery_conn c s sl db st sql .slave f' h
-  rcases getBackendConn_slave c s sl _ f' hg with ⟨_, hro⟩ | ⟨hks, htx, hf⟩
-  · exact absurd hro (allowWrite_not_readOnly c hw)
-  · obtain ⟨hst, hrest⟩ := rw_split_decision c st tokens sql hf
-    rcases hrest with hnw | ⟨hsp, hlk, hp, hh⟩
-    · rw [hw] at hnw; cases hnw
-    · exact ⟨hks, htx, hst, hsp, fun hl => (hlk hl).2, hp, tokens, htok, hh⟩
+  obtain ⟨hks, htx, hf⟩ := getBackendConn_slave c s sl _ f' hg
+  obtain ⟨hst, hrest⟩ := rw_split_decision c st tokens sql hf
+  rcases hrest with hnw | ⟨hsp, hlk, hp, hh⟩
+  · rw [hw] at hnw; cases hnw
+  · exact ⟨hks, htx, hst, hsp, fun hl => (hlk hl).2, hp, tokens, htok, hh⟩
 
 example : doQuery { rwFlag := 2, rwSplit := 1, checkSelectLock := true }
     { keepSession := false, inTrans := false, autocommit := true } { slaveUp := true, fallback := true }
@@ -714,16 +732,9 @@ example : doQuery { rwFlag := 2, rwSplit := 1, checkSelectLock := true }
 
 /-- A user who may write and uses keep-session is always served by the master. -/
 theorem keepsession_writer_master (c : RwSplit.Cfg) (s : Sess) (sl : Slice) (db : Str) (st : Nat) (sql : Str)
-    (n : Node) (f' : Bool) (hw : c.allowWrite = true) (hks : s.keepSession = true)
+    (n : Node) (f' : Bool) (_hw : c.allowWrite = true) (hks : s.keepSession = true)
     (h : doQuery c s sl db st sql = .ok (.conn n f')) : n = .master := by
-  obtain ⟨tokens, _, hg⟩ := doQuery_conn c s sl db st sql n f' h
-  unfold getBackendConn at hg
-  have hro : (c.rwFlag == rwReadOnly) = false := by
-    simpa using allowWrite_not_readOnly c hw
-  simp only [hks, if_true, hro] at hg
-  injection hg with h1 _
-  rw [← h1]
-  rfl
+  exact keepsession_master c s sl db st sql n f' hks h
 
 /-- `doQuery` cannot panic (its only source would be `Tokenize`). -/
 theorem doQuery_never_panics (c : RwSplit.Cfg) (s : Sess) (sl : Slice) (db : Str) (st : Nat) (sql : Str) :
@@ -1125,9 +1136,115 @@ theorem replicaVerdict_of_route (c : RwSplit.Cfg) (s : Sess) (sl : Slice) (db : 
     (h : doQuery c s sl db st sql = .ok (.conn .slave f')) :
     s.isInTransaction = false ∧ Spec.replicaVerdict c c.checkSelectLock st sql = none := by
   obtain ⟨tokens, htok, hg⟩ := doQuery_conn c s sl db st sql .slave f' h
-  rcases getBackendConn_slave c s sl _ f' hg with ⟨_, hro⟩ | ⟨_, htx, hf⟩
-  · exact absurd hro (allowWrite_not_readOnly c hw)
-  · exact ⟨htx, replicaVerdict_of_flag c st tokens sql htok hf⟩
+  obtain ⟨_, htx, hf⟩ := getBackendConn_slave c s sl _ f' hg
+  exact ⟨htx, replicaVerdict_of_flag c st tokens sql htok hf⟩
+
+/-! ### multi-statement packets: every piece is routed as if it were sent alone -/
+
+/-- The flag a request context holds on entry does not matter to `doQuery`:
+    either the outcome is the one of a fresh context, or no connection is taken
+    (`show databases`, a SHOW without tokens) and only the untouched flag differs. -/
+theorem doQueryFrom_cases (f0 : Bool) (c : RwSplit.Cfg) (s : Sess) (sl : Slice) (db : Str) (st : Nat) (sql : Str) :
+    doQueryFrom f0 c s sl db st sql = doQuery c s sl db st sql ∨
+    (doQueryFrom f0 c s sl db st sql = .ok (.local f0) ∧ doQuery c s sl db st sql = .ok (.local false)) ∨
+    (doQueryFrom f0 c s sl db st sql = .ok (.failed f0) ∧ doQuery c s sl db st sql = .ok (.failed false)) := by
+  unfold doQueryFrom doQuery
+  repeat' split
+  all_goals simp
+
+theorem doQueryFrom_false (c : RwSplit.Cfg) (s : Sess) (sl : Slice) (db : Str) (st : Nat) (sql : Str) :
+    doQueryFrom false c s sl db st sql = doQuery c s sl db st sql := by
+  rcases doQueryFrom_cases false c s sl db st sql with h | ⟨h1, h2⟩ | ⟨h1, h2⟩
+  · exact h
+  · rw [h1, h2]
+  · rw [h1, h2]
+
+/-- **C22, multi-statement packets.**  `doMultiStmts` runs the pieces of a
+    packet on one request context; whatever flag the earlier pieces left there,
+    every piece runs where it would run if it were sent alone (and the packet
+    stops at the same piece): a write, a locking read, a hinted statement or a
+    read_only probe that follows a plain read in the same packet does not
+    inherit the read's route to a replica. -/
+theorem multi_pieces_routed_alone (c : RwSplit.Cfg) (s : Sess) (sl : Slice) (db : Str) :
+    ∀ (ps : List (Nat × Str)) (f0 : Bool), doMulti c s sl db f0 ps = doAlone c s sl db ps := by
+  intro ps
+  induction ps with
+  | nil => intro f0; rfl
+  | cons p ps ih =>
+    intro f0
+    obtain ⟨st, sql⟩ := p
+    simp only [doMulti, doAlone]
+    rcases doQueryFrom_cases f0 c s sl db st sql with h | ⟨h1, h2⟩ | ⟨h1, h2⟩
+    · rw [h]
+      cases hq : doQuery c s sl db st sql with
+      | ok r =>
+        simp only
+        cases hn : r.next with
+        | none => rfl
+        | some f => simp only [ih f]
+      | fail => rfl
+      | panic => rfl
+    · rw [h1, h2]; simp only [Route.next, Route.where_, ih f0]
+    · rw [h1, h2]; simp only [Route.next, Route.where_]
+
+/-- A piece of a packet that is served by a replica is served by a replica when sent alone. -/
+theorem multi_slave_piece (c : RwSplit.Cfg) (s : Sess) (sl : Slice) (db : Str) :
+    ∀ (ps : List (Nat × Str)) (f0 : Bool) (i : Nat), (doMulti c s sl db f0 ps)[i]? = some .slave →
+      ∃ st sql f', ps[i]? = some (st, sql) ∧ doQuery c s sl db st sql = .ok (.conn .slave f') := by
+  intro ps f0 i h
+  rw [multi_pieces_routed_alone] at h
+  clear f0
+  induction ps generalizing i with
+  | nil => simp [doAlone] at h
+  | cons p ps ih =>
+    obtain ⟨st, sql⟩ := p
+    simp only [doAlone] at h
+    cases hq : doQuery c s sl db st sql with
+    | ok r =>
+      rw [hq] at h
+      simp only at h
+      cases i with
+      | zero =>
+        have hw : r.where_ = .slave := by
+          cases hn : r.next with
+          | none => rw [hn] at h; simpa using h
+          | some f => rw [hn] at h; simpa using h
+        refine ⟨st, sql, ?_⟩
+        cases r with
+        | conn n f => cases n <;> simp [Route.where_] at hw; exact ⟨f, rfl, hq⟩
+        | «local» f => simp [Route.where_] at hw
+        | failed f => simp [Route.where_] at hw
+        | unmodelled => simp [Route.where_] at hw
+      | succ j =>
+        cases hn : r.next with
+        | none => rw [hn] at h; simp at h
+        | some f =>
+          rw [hn] at h
+          simp only [List.getElem?_cons_succ] at h
+          obtain ⟨st', sql', f', h1, h2⟩ := ih j h
+          exact ⟨st', sql', f', by simpa using h1, h2⟩
+    | fail => rw [hq] at h; simp at h
+    | panic => rw [hq] at h; simp at h
+
+/-- … so, for a user who may write, such a piece is a plain read outside a
+    transaction and keep-session (`replica_only_for_plain_reads` applies to it). -/
+theorem multi_replica_only_for_plain_reads (c : RwSplit.Cfg) (s : Sess) (sl : Slice) (db : Str)
+    (ps : List (Nat × Str)) (f0 : Bool) (i : Nat) (hw : c.allowWrite = true)
+    (h : (doMulti c s sl db f0 ps)[i]? = some .slave) :
+    ∃ st sql, ps[i]? = some (st, sql) ∧
+      s.keepSession = false ∧ s.isInTransaction = false ∧ (st = stmtSelect ∨ st = stmtShow) ∧
+      c.isRWSplit = true ∧ (c.checkSelectLock = true → Spec.lockingRead sql = false) ∧
+      isReadOnlyProbe st sql = false ∧
+      ∃ tokens, tokenize sql = .ok tokens ∧ hasMasterHint tokens = false := by
+  obtain ⟨st, sql, f', hp, hq⟩ := multi_slave_piece c s sl db ps f0 i h
+  exact ⟨st, sql, hp, replica_only_for_plain_reads c s sl db st sql f' hw hq⟩
+
+/-- "select …; update …" for a read/write-split user: the read on a replica, the write on the master
+    (the seeded change C22-2 dropped `SetFromSlave(false)`: the update inherited the replica) -/
+example : doMulti { rwFlag := 2, rwSplit := 1, checkSelectLock := true }
+    { keepSession := false, inTrans := false, autocommit := true } { slaveUp := true, fallback := true } "db_a".toList false
+    [(stmtSelect, "select * from t where id = 1".toList), (stmtUpdate, " update t set a = 1 where id = 1".toList),
+     (stmtSelect, " select * from t where id = 1 for update".toList)] = [.slave, .master, .master] := by decide
 
 /-! ### the pinned tree violated the property: witnesses
 
@@ -1189,18 +1306,20 @@ theorem show_master_hint_witness :
     flagOf (fun c _ t s => handleShowFlag c t s) splitUser stmtShow "/*master*/ show tables" = some false := by
   decide
 
-/-! ### open finding of the current tree -/
-
-/-- **Open finding** (class `readonly-keepsession-tx-on-replica`).  The property
-    says that inside a transaction every statement runs on the master.  For a
-    read-only user in a keep-session session, `getBackendKsConn` sets the flag
-    to "replica" whatever the transaction state, so the statements of the
-    transaction run on a replica.  (Without keep-session they run on the master:
-    `in_transaction_master`.) -/
+/-- **Former open finding** (class `readonly-keepsession-tx-on-replica`, repaired by
+    fix cb8bfb6).  The property says that inside a transaction every statement
+    runs on the master.  For a read-only user in a keep-session session,
+    `getBackendKsConn` of the pinned tree set the flag to "replica" whatever the
+    transaction state, so the statements of the transaction ran on a replica
+    (`getBackendConnPinned`); the repaired code takes the master
+    (`in_transaction_master`, `keepsession_master`). -/
 theorem readonly_keepsession_tx_on_replica_witness :
+    getBackendConnPinned { rwFlag := 1, rwSplit := 1, checkSelectLock := true }
+      { keepSession := true, inTrans := true, autocommit := true } { slaveUp := true, fallback := true } true =
+        (.slave, true) ∧
     doQuery { rwFlag := 1, rwSplit := 1, checkSelectLock := true }
       { keepSession := true, inTrans := true, autocommit := true } { slaveUp := true, fallback := true }
-      "db_a".toList stmtSelect "select * from t".toList = .ok (.conn .slave true) := by
+      "db_a".toList stmtSelect "select * from t".toList = .ok (.conn .master false) := by
   decide
 
 end GaeaVerif.C22
